@@ -10,7 +10,7 @@ from ..cfg import CFG, ReachingDefs
 from ..flow import BaseCount, TellDerived
 from ..model import FuncInfo, Repo
 from ..report import Report
-from ..util import AnalysisError, always_raises, call_name, chain, names_loaded, norm, parent_map, short, walk_body
+from ..util import AnalysisError, always_raises, call_name, chain, names_loaded, norm, parent_map, short, single_defs, walk_body
 from .c02 import node_calls
 
 WAIVERS = {
@@ -112,6 +112,10 @@ def relative_seek_rule(repo: Repo, rep: Report, rid: str) -> None:
                     if isinstance(st, ast.Assign) and isinstance(st.targets[0], ast.Name) and st.targets[0].id == recv.id and isinstance(st.value, ast.Name):
                         arm = _arm_of(st, pm)
                         base_names = [x.id for x in ast.walk(tgt) if isinstance(x, ast.Name)]
+                        # a target hoisted into a local ('start = offset + ...; buf.seek(start)'): its components count
+                        sdefs = single_defs(fi.node)
+                        for _ in range(3):
+                            base_names += [x.id for b_ in list(base_names) if b_ in sdefs for x in ast.walk(sdefs[b_]) if isinstance(x, ast.Name) and x.id not in base_names]
                         arm_ok = False
                         for st2 in walk_body(fi.node.body):
                             if isinstance(st2, ast.Assign) and isinstance(st2.targets[0], ast.Name) and st2.targets[0].id in base_names \
@@ -511,3 +515,7 @@ def run(repo: Repo, rep: Report, tier: str) -> None:
     layout_fold_rule(repo, rep, "C09.R18", 3 if tier == "thorough" else 2)
     share_rules(repo, rep, tier, "c08", {"C08.R1": "C09.R19"}, "a read that some stream kinds refuse (or answer differently) makes the result depend on the kind of input")
     input_predicate_rule(repo, rep, "C09.R20")
+    from .c05 import codec_fold_rule
+
+    # every reader leaves the stream at p plus the encoded size and takes nothing behind its extent (also the bulk readers of [EOF] arrays)
+    codec_fold_rule(repo, rep, "C09.R21", slots=("_read", "_read_array", "_read_0"))
